@@ -267,19 +267,14 @@ def handle (toks : List String) : Option String :=
     pure (fmtService g.asService)
   | "sess.recv" :: r => do
     let (ms, []) ← pCounted pRecv r | none
-    let res := ms.foldl (fun (acc : Incoming × List String) (a, mc, fl, sid) =>
-      let (d, inc) := checkReceived acc.1 a mc fl sid
-      (inc, boolStr d :: acc.2)) ([], [])
-    pure (joinSp res.2.reverse)
+    let hist := ms.map fun (a, mc, fl, sid) => ({ sender := a, mc, flag := fl, sid } : RxMsg)
+    pure (joinSp ((runRecv [] hist).map boolStr))
   | "sess.send" :: r => do
     let (ds, []) ← pCounted pDest r | none
-    let res := ds.foldl (fun (acc : Outgoing × List String) d =>
-      let (x, out) := assignOutgoing acc.1 d
-      (out, s!"{boolStr x.1}:{x.2}" :: acc.2)) ([], [])
-    pure (joinSp res.2.reverse)
+    pure (joinSp ((runSend [] ds).map fun x => s!"{boolStr x.1}:{x.2}"))
   | "spec.recv" :: r => do
     let (ms, []) ← pCounted pRecv r | none
-    let hist := ms.map fun (a, mc, fl, sid) => ({ sender := a, mc, flag := fl, sid } : Spec.RxMsg)
+    let hist := ms.map fun (a, mc, fl, sid) => ({ sender := a, mc, flag := fl, sid } : RxMsg)
     pure (joinSp ((Spec.detections [] hist).map boolStr))
   | "spec.send" :: r => do
     let (ds, []) ← pCounted pDest r | none
